@@ -59,6 +59,15 @@ macro_rules! low {
                 let pk = &$op.b[2];
                 vec![s::verify(&$op.b[0], &$op.b[1], &pk[..pk.len() - 1]) as u8]
             }
+            10 => {  // right-length secret key with corrupted CONTENT (out-of-range eta codes, extreme t0): signs or panics
+                let mut sig = vec![0u8; p::SIGNBYTES];
+                let mut sk = $op.b[0].clone();
+                for b in sk.iter_mut().skip(96).take(200) { *b = 0xFF; }
+                let n = sk.len();
+                for b in sk.iter_mut().skip(n - 64) { *b = 0xFF; }
+                s::signature(&mut sig, &$op.b[1], &sk, false);
+                sig
+            }
             _ => {   // malformed call: secret key one byte short (panics inside signing)
                 let mut sig = vec![0u8; p::SIGNBYTES];
                 let sk = &$op.b[0];
@@ -112,7 +121,7 @@ pub fn agrees(op: &Op) -> bool {
 }
 
 pub fn eval(op: &Op) -> u64 {
-    let out: Vec<u8> = if op.kind <= 2 || (5..=8).contains(&op.kind) {
+    let out: Vec<u8> = if op.kind <= 2 || (5..=8).contains(&op.kind) || op.kind == 10 {
         match op.set {
             0 => low!(cd::sign::lvl2, cd::params::lvl2, op),
             1 => low!(cd::sign::lvl3, cd::params::lvl3, op),
